@@ -435,8 +435,8 @@ func cmdRoundTrip(args []string) {
 		later := false
 		for _, more := range hs[hi].Hist[1:] {
 			t2, _ := sch.DocText(expandDefs(more.Doc))
-			if err := root1.ParseString(t2); err != nil {
-				bad("accept", fmt.Sprintf("the document %q of the history is refused: %v", t2, err))
+			if err := root1.ParseString(t2); (err == nil) != more.OK {
+				bad("accept", fmt.Sprintf("the document %q of the history: load returned %v, the specification says ok=%v (%s %s)", t2, err, more.OK, more.Why, more.Off))
 				later = true
 			}
 			cs["document"] = cs["document"].(string) + "\n---- then ----\n" + t2
